@@ -332,7 +332,7 @@ def savorize_reach(fa: bool, fb: bool, fc: bool, fs: bool, fm: bool,
 
 CONDITIONS = [
     {'fn': 'savorize', 'slices': [0, 1, 2, 3, 4], 'quick': 400,
-     'thorough': 300,
+     'thorough': 900,
      'bound': 'one slice per position: all 2^5 subsets of classes defining '
               '_yatiml_savorize (incl. the unregistered mix-in) x document '
               'denoting A/B/C/S/X, untagged or tagged with its class, x the '
@@ -342,7 +342,7 @@ CONDITIONS = [
               'registered chain, all before the constructor'},
     {'fn': 'savorize_reach', 'quick': 60, 'thorough': 60,
      'expect': 'REFUTED', 'bound': 'reachability twin'},
-    {'fn': 'recognize', 'quick': 400, 'thorough': 300,
+    {'fn': 'recognize', 'quick': 400, 'thorough': 900,
      'bound': 'all 2^5 subsets of classes defining _yatiml_recognize x '
               'document denoting A/B/C/S/X x 5 positions: every call has cls '
               '== the defining class, the mix-in\'s is never called, the '
